@@ -5,6 +5,7 @@ mod frames;
 mod neigh;
 mod tcp;
 mod pbuf;
+mod pollat;
 mod ring;
 mod util;
 
@@ -23,6 +24,7 @@ fn main() {
         "frag-replay" => frag::replay(&args),
         "frag-random" => frag::random(&args),
         "neigh-random" => neigh::random(&args),
+        "pollat-random" => pollat::random(&args),
         "tcp-pair" => tcp::pair(&args),
         "tcp-peer-replay" => tcp::peer_replay(&args),
         "tcp-peer-random" => tcp::peer_random(&args),
